@@ -284,41 +284,29 @@ Proof. unfold inrange. rewrite Bool.andb_false_iff, !qleb_false. tauto. Qed.
 Lemma nth_map_in {A B} (f : A -> B) l i da db : (i < length l)%nat -> nth i (map f l) db = f (nth i l da).
 Proof. revert i; induction l as [|a l IH]; intros [|i]; simpl; intros H; try lia; auto. apply IH; lia. Qed.
 
-Lemma fillarr_length fx f w grid fa : fillarr fx f w grid = Ok fa -> length fa = length grid.
-Proof. destruct f as [c|lo hi]; simpl.
-  - intros E; injection E as <-. apply map_length.
-  - destruct fx. intros E; injection E as <-. apply map_length.
-    destruct grid as [|g0 [|g1 [|? ?]]]; try discriminate. intros E; injection E as <-. reflexivity. Qed.
+Lemma fillarr_length f w grid : length (fillarr f w grid) = length grid.
+Proof. destruct f; simpl; apply map_length. Qed.
 
-Lemma fillarr_nth fx f w grid fa i : fillarr fx f w grid = Ok fa -> (i < length grid)%nat ->
-  (forall g0 g1, grid = [g0; g1] -> g0 <= wmin w /\ wmax w <= g1) -> wmin w <= wmax w ->
+Lemma fillarr_nth f w grid i : (i < length grid)%nat -> wmin w <= wmax w ->
   inrange w (nth i grid 0) = false ->
-  (nth i grid 0 < wmin w /\ nth i fa 0 = fill_below f) \/ (wmax w < nth i grid 0 /\ nth i fa 0 = fill_above f).
-Proof. intros E Hi Hg Hw Hr. apply inrange_false in Hr. destruct f as [c|lo hi]; simpl in E; simpl fill_below; simpl fill_above.
-  - injection E as <-. rewrite nth_map_in with (da := 0) by exact Hi. tauto.
-  - destruct fx.
-    + injection E as <-.
-      rewrite nth_map_in with (da := 0) by exact Hi. destruct (qltb (nth i grid 0) (wmin w)) eqn:Q.
-      * left. split; auto. apply qltb_iff, Q.
-      * right. split; auto. apply qltb_false in Q. destruct Hr as [Hr|Hr]; auto. exfalso. qc2q; lra.
-    + destruct grid as [|g0 [|g1 [|? ?]]]; try discriminate. injection E as <-.
-      destruct (Hg g0 g1 eq_refl) as [G0 G1].
-      destruct i as [|[|i]]; simpl in Hi, Hr |- *; try lia.
-      * left. split; auto. destruct Hr as [Hr|Hr]; auto. exfalso. qc2q; lra.
-      * right. split; auto. destruct Hr as [Hr|Hr]; auto. exfalso. qc2q; lra. Qed.
+  (nth i grid 0 < wmin w /\ nth i (fillarr f w grid) 0 = fill_below f) \/
+  (wmax w < nth i grid 0 /\ nth i (fillarr f w grid) 0 = fill_above f).
+Proof. intros Hi Hw Hr. apply inrange_false in Hr. destruct f as [c|lo hi]; simpl fillarr; simpl fill_below; simpl fill_above.
+  - rewrite nth_map_in with (da := 0) by exact Hi. tauto.
+  - rewrite nth_map_in with (da := 0) by exact Hi. destruct (qltb (nth i grid 0) (wmin w)) eqn:Q.
+    + left. split; auto. apply qltb_iff, Q.
+    + right. split; auto. apply qltb_false in Q. destruct Hr as [Hr|Hr]; auto. exfalso. qc2q; lra. Qed.
 
 Lemma sample_on_length w v fa grid : length fa = length grid -> length (sample_on w v fa grid) = length grid.
 Proof. intros H. unfold sample_on. apply map2_length. auto. Qed.
 
-Lemma sample_on_denotes fx f w v grid fa i : incr w -> length w = length v -> w <> [] ->
-  fillarr fx f w grid = Ok fa -> (i < length grid)%nat ->
-  (forall g0 g1, grid = [g0; g1] -> g0 <= wmin w /\ wmax w <= g1) ->
-  denotes w v f (nth i grid 0) (nth i (sample_on w v fa grid) 0).
-Proof. intros Hi Hl Hne E Hn Hg. pose proof (fillarr_length _ _ _ _ _ E) as L.
+Lemma sample_on_denotes f w v grid i : incr w -> length w = length v -> w <> [] -> (i < length grid)%nat ->
+  denotes w v f (nth i grid 0) (nth i (sample_on w v (fillarr f w grid) grid) 0).
+Proof. intros Hi Hl Hne Hn. pose proof (fillarr_length f w grid) as L.
   unfold sample_on. rewrite map2_nth with (da := 0) (db := 0) by lia.
   destruct (inrange w (nth i grid 0)) eqn:R.
   - apply inrange_true in R. destruct R. right; right. repeat split; auto. apply interp_on; auto.
-  - destruct (fillarr_nth _ _ _ _ _ _ E Hn Hg (incr_wmin_le_wmax _ Hi) R) as [[A ->]|[A ->]].
+  - destruct (fillarr_nth f w grid i Hn (incr_wmin_le_wmax _ Hi) R) as [[A ->]|[A ->]].
     + left; auto.
     + right; left; auto. Qed.
 
@@ -363,30 +351,23 @@ Proof. intros H1 H2 E mn mx. unfold common_grid in E. fold mn mx in E.
   - intros Hp. apply step_le_sampling; auto. Qed.
 
 (* ------------------------------------------------------------------ (b) pointwise theorem for the core *)
-Lemma core_pointwise fx o w1 v1 w2 v2 m f grid vals :
+Lemma core_pointwise o w1 v1 w2 v2 m f grid vals :
   incr w1 -> incr w2 -> length w1 = length v1 -> length w2 = length v2 -> w1 <> [] -> w2 <> [] ->
-  core fx o w1 v1 w2 v2 m f = Ok (grid, vals) ->
+  core o w1 v1 w2 v2 m f = Ok (grid, vals) ->
   common_grid w1 w2 m = Ok grid /\ length vals = length grid /\
   forall i, (i < length grid)%nat -> exists y1 y2,
     denotes w1 v1 f (nth i grid 0) y1 /\ denotes w2 v2 f (nth i grid 0) y2 /\
     nth i vals XUnmodelled = apply o y1 y2.
 Proof. intros H1 H2 L1 L2 N1 N2 E. unfold core in E.
   destruct (common_grid w1 w2 m) as [g|] eqn:Eg; simpl in E; [|discriminate].
-  destruct (fillarr fx f w1 g) as [f1|] eqn:F1; simpl in E; [|discriminate].
-  destruct (fillarr fx f w2 g) as [f2|] eqn:F2; simpl in E; [|discriminate].
   injection E as <- <-.
-  pose proof (fillarr_length _ _ _ _ _ F1) as LF1. pose proof (fillarr_length _ _ _ _ _ F2) as LF2.
-  pose proof (sample_on_length w1 v1 f1 g LF1) as S1. pose proof (sample_on_length w2 v2 f2 g LF2) as S2.
-  destruct (common_grid_spec _ _ _ _ H1 H2 Eg) as (dw & num & _ & _ & _ & Hn & _ & _ & Lg & _ & G0 & G1 & _).
-  assert (Hg : forall g0 g1, g = [g0; g1] ->
-            (g0 <= wmin w1 /\ wmax w1 <= g1) /\ (g0 <= wmin w2 /\ wmax w2 <= g1)).
-  { intros g0 g1 ->. unfold wmin at 1 in G0. unfold wmax at 1 in G1. simpl in G0, G1. subst g0 g1.
-    repeat split. apply qmin_le_l. apply qmax_ge_l. apply qmin_le_r. apply qmax_ge_r. }
+  pose proof (sample_on_length w1 v1 _ g (fillarr_length f w1 g)) as S1.
+  pose proof (sample_on_length w2 v2 _ g (fillarr_length f w2 g)) as S2.
   split; [reflexivity|]. split. { rewrite map2_length; congruence. }
   intros i Hi.
-  exists (nth i (sample_on w1 v1 f1 g) 0), (nth i (sample_on w2 v2 f2 g) 0). split; [|split].
-  - eapply sample_on_denotes; eauto. intros g0 g1 Eq. apply (Hg g0 g1 Eq).
-  - eapply sample_on_denotes; eauto. intros g0 g1 Eq. apply (Hg g0 g1 Eq).
+  exists (nth i (sample_on w1 v1 (fillarr f w1 g) g) 0), (nth i (sample_on w2 v2 (fillarr f w2 g) g) 0). split; [|split].
+  - apply sample_on_denotes; auto.
+  - apply sample_on_denotes; auto.
   - apply map2_nth; lia. Qed.
 
 (* ------------------------------------------------------------------ well-formedness is kept by unit conversion *)
@@ -417,23 +398,18 @@ Proof. intros [-> | [d ->]]; simpl; auto.
 Lemma common_grid_comm w1 w2 m : (m = SMin \/ exists d, m = SNum d) -> common_grid w1 w2 m = common_grid w2 w1 m.
 Proof. intros H. unfold common_grid. rewrite (sampling_of_comm w1 w2 m H).
   rewrite (qmin_comm (wmin w1)), (qmax_comm (wmax w1)). reflexivity. Qed.
-Lemma fillarr_err fx f w g e : fillarr fx f w g = Err e -> e = ValueError /\ forall w', fillarr fx f w' g = Err ValueError.
-Proof. destruct f as [c|lo hi]; simpl; [discriminate|]. destruct fx; [discriminate|].
-  destruct g as [|g0 [|g1 [|? ?]]]; try discriminate; intros E; injection E as <-; auto. Qed.
-Lemma core_comm fx o w1 v1 w2 v2 m f : (o = OAdd \/ o = OMul) -> (m = SMin \/ exists d, m = SNum d) ->
-  core fx o w1 v1 w2 v2 m f = core fx o w2 v2 w1 v1 m f.
+Lemma core_comm o w1 v1 w2 v2 m f : (o = OAdd \/ o = OMul) -> (m = SMin \/ exists d, m = SNum d) ->
+  core o w1 v1 w2 v2 m f = core o w2 v2 w1 v1 m f.
 Proof. intros Ho Hm. unfold core. rewrite (common_grid_comm w1 w2 m Hm).
   destruct (common_grid w2 w1 m) as [g|]; simpl; auto.
-  destruct (fillarr fx f w1 g) as [f1|e1] eqn:F1, (fillarr fx f w2 g) as [f2|e2] eqn:F2; simpl; auto.
-  - f_equal. f_equal. apply map2_comm. intros; apply apply_comm, Ho.
-  - apply fillarr_err in F1, F2. destruct F1 as [-> _], F2 as [-> _]. reflexivity. Qed.
+  f_equal. f_equal. apply map2_comm. intros; apply apply_comm, Ho. Qed.
 
 Lemma wunit_eqb_refl u : wunit_eqb u u = true. Proof. destruct u; reflexivity. Qed.
-Lemma spec_op_comm fx o s1 s2 m f : wu s1 = wu s2 -> vu s1 = vu s2 ->
+Lemma spec_op_comm o s1 s2 m f : wu s1 = wu s2 -> vu s1 = vu s2 ->
   (o = OAdd \/ o = OMul) -> (m = SMin \/ exists d, m = SNum d) ->
-  spec_op fx o s1 s2 m f = spec_op fx o s2 s1 m f.
+  spec_op o s1 s2 m f = spec_op o s2 s1 m f.
 Proof. intros Hu Hv Ho Hm. unfold spec_op, conv. rewrite <- Hu, Hv, !wunit_eqb_refl.
-  rewrite (core_comm fx o _ _ _ _ m f Ho Hm). reflexivity. Qed.
+  rewrite (core_comm o _ _ _ _ m f Ho Hm). reflexivity. Qed.
 
 (* ------------------------------------------------------------------ (e) rescaling the wavelength axis by c > 0 *)
 Section Scale.
@@ -500,12 +476,10 @@ Proof. induction w as [|a [|b t] IH]; intros v x; try reflexivity.
   change (interp (a :: b :: t) (v0 :: v1 :: vt) x)
     with (if qleb x b then chord a b v0 v1 x else interp (b :: t) (v1 :: vt) x).
   unfold sc at 1 2 3. rewrite qleb_scale, chord_scale, IH. reflexivity. Qed.
-Lemma fillarr_scale fx f w g : fillarr fx f (map sc w) (map sc g) = fillarr fx f w g.
+Lemma fillarr_scale f w g : fillarr f (map sc w) (map sc g) = fillarr f w g.
 Proof. destruct f as [k|lo hi]; simpl.
   - now rewrite map_map.
-  - destruct fx.
-    + rewrite map_map. f_equal. apply map_ext. intros x. unfold sc at 1. now rewrite wmin_scale, qltb_scale.
-    + destruct g as [|g0 [|g1 [|? ?]]]; reflexivity. Qed.
+  - rewrite map_map. apply map_ext. intros x. unfold sc at 1. now rewrite wmin_scale, qltb_scale. Qed.
 Lemma map2_map_l {A A' B C} (f : A' -> B -> C) (h : A -> A') a b :
   map2 f (map h a) b = map2 (fun x y => f (h x) y) a b.
 Proof. revert b; induction a as [|x a IH]; intros [|y b]; simpl; auto. now rewrite IH. Qed.
@@ -515,12 +489,11 @@ Lemma sample_on_scale w v fa g : sample_on (map sc w) v fa (map sc g) = sample_o
 Proof. unfold sample_on. rewrite map2_map_l. apply map2_ext. intros x y. change (sc x) with (x * c).
   now rewrite inrange_scale, interp_scale. Qed.
 (* rescaling both wavelength axes (and a numeric sampling) rescales the grid and keeps the values *)
-Lemma core_scale fx o w1 v1 w2 v2 m f :
-  core fx o (map sc w1) v1 (map sc w2) v2 (scale_sampling c m) f
-  = match core fx o w1 v1 w2 v2 m f with Ok (g, vals) => Ok (map sc g, vals) | Err e => Err e end.
+Lemma core_scale o w1 v1 w2 v2 m f :
+  core o (map sc w1) v1 (map sc w2) v2 (scale_sampling c m) f
+  = match core o w1 v1 w2 v2 m f with Ok (g, vals) => Ok (map sc g, vals) | Err e => Err e end.
 Proof. unfold core. rewrite common_grid_scale. destruct (common_grid w1 w2 m) as [g|]; simpl; auto.
-  rewrite !fillarr_scale. destruct (fillarr fx f w1 g) as [f1|]; simpl; auto.
-  destruct (fillarr fx f w2 g) as [f2|]; simpl; auto. now rewrite !sample_on_scale. Qed.
+  now rewrite !fillarr_scale, !sample_on_scale. Qed.
 End Scale.
 
 (* ------------------------------------------------------------------ (e) unit-agnosticism of Spectrum (op) Spectrum *)
@@ -535,9 +508,9 @@ Lemma to_wu_none s u : vu s = VNone ->
   vu (to_wu s u) = VNone /\ wu (to_wu s u) = u.
 Proof. intros Hv. unfold to_wu; simpl. rewrite Hv. auto. Qed.
 
-Lemma spec_op_unit_agnostic fx o s1 s2 m f u1 u2 : vu s1 = VNone -> vu s2 = VNone ->
-  spec_op fx o (to_wu s1 u1) (to_wu s2 u2) (scale_sampling (ufac (wu s1) u1) m) f
-  = rmap_res (fun r => rto r u1) (spec_op fx o s1 s2 m f).
+Lemma spec_op_unit_agnostic o s1 s2 m f u1 u2 : vu s1 = VNone -> vu s2 = VNone ->
+  spec_op o (to_wu s1 u1) (to_wu s2 u2) (scale_sampling (ufac (wu s1) u1) m) f
+  = rmap_res (fun r => rto r u1) (spec_op o s1 s2 m f).
 Proof. intros V1 V2. unfold spec_op.
   destruct (to_wu_none s1 u1 V1) as (W1 & X1 & Y1 & U1).
   destruct (to_wu_none s2 u2 V2) as (W2 & X2 & Y2 & U2).
@@ -550,14 +523,14 @@ Proof. intros V1 V2. unfold spec_op.
   { rewrite !map_map. apply map_ext. intros x. unfold c.
     rewrite <- !Qcmult_assoc, !ufac_trans. reflexivity. }
   rewrite E. rewrite (core_scale c (ufac_pos _ _)).
-  destruct (core fx o (wave s1) (value s1) (map (fun x => x * ufac (wu s2) (wu s1)) (wave s2)) (value s2) m f)
+  destruct (core o (wave s1) (value s1) (map (fun x => x * ufac (wu s2) (wu s1)) (wave s2)) (value s2) m f)
     as [[g vals]|]; simpl; auto. unfold rto; simpl. rewrite V1. reflexivity. Qed.
 
 (* ------------------------------------------------------------------ statements at the level of Spectrum (op) Spectrum *)
-Lemma spec_op_inv fx o s1 s2 m f r : spec_op fx o s1 s2 m f = Ok r ->
-  core fx o (wave s1) (value s1) (wave (conv s2 (wu s1))) (value (conv s2 (wu s1))) m f = Ok (rwave r, rvalue r)
+Lemma spec_op_inv o s1 s2 m f r : spec_op o s1 s2 m f = Ok r ->
+  core o (wave s1) (value s1) (wave (conv s2 (wu s1))) (value (conv s2 (wu s1))) m f = Ok (rwave r, rvalue r)
   /\ rwu r = wu s1 /\ rvu r = vu s1.
-Proof. unfold spec_op. destruct (core _ _ _ _ _ _ _ _) as [[g vals]|]; simpl; [|discriminate].
+Proof. unfold spec_op. destruct (core _ _ _ _ _ _ _) as [[g vals]|]; simpl; [|discriminate].
   intros E; injection E as <-. auto. Qed.
 
 Definition sampling_char (w1 w2 : list Qc) (m : sampling) (dw : Qc) : Prop :=
@@ -568,7 +541,7 @@ Definition sampling_char (w1 w2 : list Qc) (m : sampling) (dw : Qc) : Prop :=
   | SNum d => dw = d /\ 0 < d
   end.
 
-Lemma spec_op_common_grid fx o s1 s2 m f r : wf s1 -> wf s2 -> spec_op fx o s1 s2 m f = Ok r ->
+Lemma spec_op_common_grid o s1 s2 m f r : wf s1 -> wf s2 -> spec_op o s1 s2 m f = Ok r ->
   let w1 := wave s1 in let w2 := wave (conv s2 (wu s1)) in
   let mn := qmin (wmin w1) (wmin w2) in let mx := qmax (wmax w1) (wmax w2) in
   exists dw num,
@@ -584,12 +557,12 @@ Lemma spec_op_common_grid fx o s1 s2 m f r : wf s1 -> wf s2 -> spec_op fx o s1 s
     wmin (rwave r) = mn /\ wmax (rwave r) = mx /\ ((0 < num)%Z -> (mx - mn) / zq num <= dw).
 Proof. intros (I1 & L1 & N1) W2 E. apply spec_op_inv in E. destruct E as (E & _ & _).
   destruct (conv_wf s2 (wu s1) W2) as (I2 & L2 & N2).
-  destruct (core_pointwise _ _ _ _ _ _ _ _ _ _ I1 I2 L1 L2 N1 N2 E) as (G & _ & _).
+  destruct (core_pointwise _ _ _ _ _ _ _ _ _ I1 I2 L1 L2 N1 N2 E) as (G & _ & _).
   destruct (common_grid_spec _ _ _ _ I1 I2 G) as (dw & num & S & P & _ & Hn & C1 & C2 & Lg & Nth & G0 & G1 & St).
   intros w1 w2 mn mx. exists dw, num. repeat split; auto. apply sampling_of_spec, S.
   all: apply sampling_of_spec in S; destruct m; try tauto; destruct S; auto. Qed.
 
-Lemma spec_op_pointwise fx o s1 s2 m f r : wf s1 -> wf s2 -> spec_op fx o s1 s2 m f = Ok r ->
+Lemma spec_op_pointwise o s1 s2 m f r : wf s1 -> wf s2 -> spec_op o s1 s2 m f = Ok r ->
   let s2' := conv s2 (wu s1) in
   rwu r = wu s1 /\ rvu r = vu s1 /\ length (rvalue r) = length (rwave r) /\
   forall i, (i < length (rwave r))%nat -> exists y1 y2,
@@ -598,7 +571,7 @@ Lemma spec_op_pointwise fx o s1 s2 m f r : wf s1 -> wf s2 -> spec_op fx o s1 s2 
     nth i (rvalue r) XUnmodelled = apply o y1 y2.
 Proof. intros (I1 & L1 & N1) W2 E. apply spec_op_inv in E. destruct E as (E & U & V).
   destruct (conv_wf s2 (wu s1) W2) as (I2 & L2 & N2).
-  destruct (core_pointwise _ _ _ _ _ _ _ _ _ _ I1 I2 L1 L2 N1 N2 E) as (_ & L & P).
+  destruct (core_pointwise _ _ _ _ _ _ _ _ _ I1 I2 L1 L2 N1 N2 E) as (_ & L & P).
   intros s2'. repeat split; auto. Qed.
 
 (* the three cases of [denotes] exclude each other, and the interpolant is a function: a spectrum
@@ -620,8 +593,8 @@ Proof. intros H. destruct s as [w v u y]; simpl in *. subst y. unfold to_wu; sim
 Lemma conv_to_wu s u : vu s = VNone -> conv s u = to_wu s u.
 Proof. intros H. unfold conv. destruct (wunit_eqb (wu s) u) eqn:E; auto.
   apply wunit_eqb_eq in E. subst u. symmetry. apply to_wu_same, H. Qed.
-Lemma spec_op_conv_r fx o s1 s2 m f : vu s2 = VNone ->
-  spec_op fx o s1 s2 m f = spec_op fx o s1 (to_wu s2 (wu s1)) m f.
+Lemma spec_op_conv_r o s1 s2 m f : vu s2 = VNone ->
+  spec_op o s1 s2 m f = spec_op o s1 (to_wu s2 (wu s1)) m f.
 Proof. intros H. unfold spec_op. rewrite (conv_to_wu s2 _ H).
   assert (E : conv (to_wu s2 (wu s1)) (wu s1) = to_wu s2 (wu s1)).
   { unfold conv. change (wu (to_wu s2 (wu s1))) with (wu s1). now rewrite wunit_eqb_refl. }
@@ -630,14 +603,14 @@ Lemma scale_sampling_kind c m : (m = SMin \/ exists d, m = SNum d) ->
   scale_sampling c m = SMin \/ exists d, scale_sampling c m = SNum d.
 Proof. intros [-> | [d ->]]; simpl; eauto. Qed.
 
-Lemma spec_op_comm_units fx o a b m f : vu a = VNone -> vu b = VNone ->
+Lemma spec_op_comm_units o a b m f : vu a = VNone -> vu b = VNone ->
   (o = OAdd \/ o = OMul) -> (m = SMin \/ exists d, m = SNum d) ->
-  spec_op fx o b a (scale_sampling (ufac (wu a) (wu b)) m) f
-  = rmap_res (fun r => rto r (wu b)) (spec_op fx o a b m f).
+  spec_op o b a (scale_sampling (ufac (wu a) (wu b)) m) f
+  = rmap_res (fun r => rto r (wu b)) (spec_op o a b m f).
 Proof. intros Va Vb Ho Hm.
-  rewrite <- (spec_op_unit_agnostic fx o a b m f (wu b) (wu b) Va Vb).
+  rewrite <- (spec_op_unit_agnostic o a b m f (wu b) (wu b) Va Vb).
   rewrite (to_wu_same b Vb).
-  rewrite (spec_op_conv_r fx o b a _ f Va).
+  rewrite (spec_op_conv_r o b a _ f Va).
   apply spec_op_comm; auto using scale_sampling_kind.
   unfold to_wu; simpl. congruence. Qed.
 
@@ -656,23 +629,19 @@ Proof. unfold vector_op. split; [|split].
   - intros c ->. simpl. destruct (length (value s)) as [|[|n]]; simpl; auto.
   - intros H1 H2. apply Nat.eqb_neq in H1. rewrite H1. destruct l as [|c [|? ?]]; simpl in *; auto; lia. Qed.
 
-Lemma reflected_forms fx o s x :
-  rdunder fx OMul s x = dunder fx OMul s x /\ (o <> OMul -> rdunder fx o s x = Err TypeError) /\
-  dunder fx o s POther = Err TypeError.
+Lemma reflected_forms o s x :
+  rdunder OMul s x = dunder OMul s x /\ (o <> OMul -> rdunder o s x = Err TypeError) /\
+  dunder o s POther = Err TypeError.
 Proof. repeat split. destruct o; simpl; congruence. Qed.
 
 (* ------------------------------------------------------------------ when does Spectrum (op) Spectrum raise *)
-Lemma spec_op_errors fx o s1 s2 m f : (fx = true \/ exists c, f = FScalar c) ->
-  match spec_op fx o s1 s2 m f with
+Lemma spec_op_errors o s1 s2 m f :
+  match spec_op o s1 s2 m f with
   | Ok _ => exists dw, sampling_of (wave s1) (wave (conv s2 (wu s1))) m = Ok dw
   | Err e => sampling_of (wave s1) (wave (conv s2 (wu s1))) m = Err e
   end.
-Proof. intros Hf. unfold spec_op, core, common_grid.
-  destruct (sampling_of (wave s1) (wave (conv s2 (wu s1))) m) as [dw|e]; simpl; auto.
-  set (g := linspace _ _ _).
-  assert (F : forall w, exists fa, fillarr fx f w g = Ok fa).
-  { intros w. destruct Hf as [-> | [c ->]]; [destruct f|]; simpl; eauto. }
-  destruct (F (wave s1)) as [f1 ->], (F (wave (conv s2 (wu s1)))) as [f2 ->]. simpl. eauto. Qed.
+Proof. unfold spec_op, core, common_grid.
+  destruct (sampling_of (wave s1) (wave (conv s2 (wu s1))) m) as [dw|e]; simpl; eauto. Qed.
 
 (* ------------------------------------------------------------------ Spectrum.sample *)
 Lemma sample_denotes s pts f u i : wf s -> (i < length pts)%nat ->
@@ -690,17 +659,6 @@ Proof. intros W Hi s'. destruct (conv_wf s u W) as (I & L & N). fold s' in I, L,
     + destruct (qltb (nth i pts 0) (wmin (wave s'))) eqn:Q.
       * left. split; auto. apply qltb_iff, Q.
       * right; left. split; auto. apply qltb_false in Q. destruct R as [R|R]; auto. exfalso. qc2q; lra. Qed.
-
-(* ------------------------------------------------------------------ the two-element fill value, as the code is *)
-Lemma fill_pair_witness :
-  exists (s1 s2 : spectrum) (lo hi : Qc), wf s1 /\ wf s2 /\
-    spec_op false OAdd s1 s2 SMin (FPair lo hi) = Err ValueError /\
-    exists r, spec_op true OAdd s1 s2 SMin (FPair lo hi) = Ok r.
-Proof.
-  exists (mkS (map zq [1; 2; 3]%Z) (map zq [1; 2; 3]%Z) UNm VNone),
-         (mkS (map zq [2; 3; 4]%Z) (map zq [1; 1; 2]%Z) UNm VNone), (zq 7), (zq 9).
-  unfold wf. simpl incr. repeat split; try discriminate; try reflexivity.
-  vm_compute. eexists. reflexivity. Qed.
 
 (* ------------------------------------------------------------------ (e) density value units: add and subtract *)
 Section ValScale.
@@ -720,12 +678,10 @@ Proof. induction w as [|a [|b t] IH]; intros v x.
       change (interp (a :: b :: t) (v0 :: v1 :: vt) x)
         with (if qleb x b then chord a b v0 v1 x else interp (b :: t) (v1 :: vt) x).
       unfold sk at 1 2. rewrite chord_vscale, IH. destruct (qleb x b); reflexivity. Qed.
-Lemma fillarr_vscale fx f w g : fillarr fx (fscale k f) w g = rmap_res (map sk) (fillarr fx f w g).
+Lemma fillarr_vscale f w g : fillarr (fscale k f) w g = map sk (fillarr f w g).
 Proof. destruct f as [c|lo hi]; simpl.
   - now rewrite map_map.
-  - destruct fx; simpl.
-    + rewrite map_map. f_equal. apply map_ext. intros x. destruct (qltb x (wmin w)); reflexivity.
-    + destruct g as [|g0 [|g1 [|? ?]]]; reflexivity. Qed.
+  - rewrite map_map. apply map_ext. intros x. destruct (qltb x (wmin w)); reflexivity. Qed.
 Lemma sample_on_vscale w v g : forall fa, sample_on w (map sk v) (map sk fa) g = map sk (sample_on w v fa g).
 Proof. unfold sample_on. induction g as [|x g IH]; intros [|y fa]; simpl; auto.
   rewrite IH, interp_vscale. destruct (inrange w x); reflexivity. Qed.
@@ -735,13 +691,11 @@ Lemma map2_apply_vscale o a : o = OAdd \/ o = OSub ->
   forall b, map2 (apply o) (map sk a) (map sk b) = map (xscale k) (map2 (apply o) a b).
 Proof. intros Ho. induction a as [|x a IH]; intros [|y b]; simpl; auto.
   unfold sk at 1 2. now rewrite apply_vscale, IH. Qed.
-Lemma core_vscale fx o w1 v1 w2 v2 m f : o = OAdd \/ o = OSub ->
-  core fx o w1 (map sk v1) w2 (map sk v2) m (fscale k f)
-  = rmap_res (fun gv => (fst gv, map (xscale k) (snd gv))) (core fx o w1 v1 w2 v2 m f).
+Lemma core_vscale o w1 v1 w2 v2 m f : o = OAdd \/ o = OSub ->
+  core o w1 (map sk v1) w2 (map sk v2) m (fscale k f)
+  = rmap_res (fun gv => (fst gv, map (xscale k) (snd gv))) (core o w1 v1 w2 v2 m f).
 Proof. intros Ho. unfold core. destruct (common_grid w1 w2 m) as [g|]; simpl; auto.
-  rewrite !fillarr_vscale. destruct (fillarr fx f w1 g) as [f1|]; simpl; auto.
-  destruct (fillarr fx f w2 g) as [f2|]; simpl; auto.
-  now rewrite !sample_on_vscale, map2_apply_vscale. Qed.
+  now rewrite !fillarr_vscale, !sample_on_vscale, map2_apply_vscale. Qed.
 End ValScale.
 
 Lemma div_as_mul (y f : Qc) : y / f = y * / f. Proof. reflexivity. Qed.
@@ -759,10 +713,10 @@ Proof. intros H. unfold conv. destruct (wunit_eqb (wu s) u) eqn:E.
     + rewrite <- (map_id (value s)) at 1. apply map_ext. intros. field. discriminate.
   - destruct (to_wu_density s u H) as (A & B & _). auto. Qed.
 
-Lemma spec_op_unit_agnostic_density fx o s1 s2 m f u1 u2 : vu s1 <> VNone -> vu s2 <> VNone ->
+Lemma spec_op_unit_agnostic_density o s1 s2 m f u1 u2 : vu s1 <> VNone -> vu s2 <> VNone ->
   (o = OAdd \/ o = OSub) ->
-  spec_op fx o (to_wu s1 u1) (to_wu s2 u2) (scale_sampling (ufac (wu s1) u1) m) (fscale (/ ufac (wu s1) u1) f)
-  = rmap_res (fun r => rto_density r u1) (spec_op fx o s1 s2 m f).
+  spec_op o (to_wu s1 u1) (to_wu s2 u2) (scale_sampling (ufac (wu s1) u1) m) (fscale (/ ufac (wu s1) u1) f)
+  = rmap_res (fun r => rto_density r u1) (spec_op o s1 s2 m f).
 Proof. intros V1 V2 Ho. unfold spec_op.
   destruct (to_wu_density s1 u1 V1) as (W1 & X1 & Y1 & U1).
   destruct (to_wu_density s2 u2 V2) as (W2 & X2 & Y2 & U2).
@@ -779,8 +733,8 @@ Proof. intros V1 V2 Ho. unfold spec_op.
               = map (fun y => y * / c) (map (fun y => y * / ufac (wu s2) (wu s1)) (value s2))).
   { rewrite !map_map. apply map_ext. intros y. unfold c.
     rewrite <- !Qcmult_assoc, <- !Qcinv_mult_distr, !ufac_trans. reflexivity. }
-  rewrite E, E2. rewrite (core_scale c (ufac_pos _ _)). rewrite (core_vscale (/ c) fx o _ _ _ _ m f Ho).
-  destruct (core fx o (wave s1) (value s1) (map (fun x => x * ufac (wu s2) (wu s1)) (wave s2))
+  rewrite E, E2. rewrite (core_scale c (ufac_pos _ _)). rewrite (core_vscale (/ c) o _ _ _ _ m f Ho).
+  destruct (core o (wave s1) (value s1) (map (fun x => x * ufac (wu s2) (wu s1)) (wave s2))
               (map (fun y => y * / ufac (wu s2) (wu s1)) (value s2)) m f) as [[g vals]|]; simpl; auto. Qed.
 
 (* density (left) times / over a unitless spectrum (right), default fill value 0 *)
@@ -797,18 +751,18 @@ Proof. intros Ho. induction a as [|x a IH]; intros [|y b]; simpl; auto.
   unfold sk at 1. now rewrite apply_vscale_left, IH. Qed.
 Lemma zeros_vscale (g : list Qc) : map sk (map (fun _ => 0) g) = map (fun _ => 0) g.
 Proof. rewrite map_map. apply map_ext. intros; unfold sk; ring. Qed.
-Lemma core_vscale_left fx o w1 v1 w2 v2 m : o = OMul \/ o = ODiv ->
-  core fx o w1 (map sk v1) w2 v2 m (FScalar 0)
-  = rmap_res (fun gv => (fst gv, map (xscale k) (snd gv))) (core fx o w1 v1 w2 v2 m (FScalar 0)).
+Lemma core_vscale_left o w1 v1 w2 v2 m : o = OMul \/ o = ODiv ->
+  core o w1 (map sk v1) w2 v2 m (FScalar 0)
+  = rmap_res (fun gv => (fst gv, map (xscale k) (snd gv))) (core o w1 v1 w2 v2 m (FScalar 0)).
 Proof. intros Ho. unfold core. destruct (common_grid w1 w2 m) as [g|]; simpl; auto.
   rewrite <- (zeros_vscale g) at 1. fold sk. rewrite (sample_on_vscale k).
   now rewrite map2_apply_vscale_left. Qed.
 End ValScaleLeft.
 
-Lemma spec_op_unit_agnostic_density_left fx o s1 s2 m u1 u2 : vu s1 <> VNone -> vu s2 = VNone ->
+Lemma spec_op_unit_agnostic_density_left o s1 s2 m u1 u2 : vu s1 <> VNone -> vu s2 = VNone ->
   (o = OMul \/ o = ODiv) ->
-  spec_op fx o (to_wu s1 u1) (to_wu s2 u2) (scale_sampling (ufac (wu s1) u1) m) (FScalar 0)
-  = rmap_res (fun r => rto_density r u1) (spec_op fx o s1 s2 m (FScalar 0)).
+  spec_op o (to_wu s1 u1) (to_wu s2 u2) (scale_sampling (ufac (wu s1) u1) m) (FScalar 0)
+  = rmap_res (fun r => rto_density r u1) (spec_op o s1 s2 m (FScalar 0)).
 Proof. intros V1 V2 Ho. unfold spec_op.
   destruct (to_wu_density s1 u1 V1) as (W1 & X1 & Y1 & U1).
   destruct (to_wu_none s2 u2 V2) as (W2 & X2 & Y2 & U2).
@@ -820,7 +774,29 @@ Proof. intros V1 V2 Ho. unfold spec_op.
               = map (fun x => x * c) (map (fun x => x * ufac (wu s2) (wu s1)) (wave s2))).
   { rewrite !map_map. apply map_ext. intros x. unfold c.
     rewrite <- !Qcmult_assoc, !ufac_trans. reflexivity. }
-  rewrite E. rewrite (core_scale c (ufac_pos _ _) fx o _ _ _ _ m (FScalar 0)).
-  rewrite (core_vscale_left (/ c) fx o _ _ _ _ m Ho).
-  destruct (core fx o (wave s1) (value s1) (map (fun x => x * ufac (wu s2) (wu s1)) (wave s2)) (value s2) m (FScalar 0))
+  rewrite E. rewrite (core_scale c (ufac_pos _ _) o _ _ _ _ m (FScalar 0)).
+  rewrite (core_vscale_left (/ c) o _ _ _ _ m Ho).
+  destruct (core o (wave s1) (value s1) (map (fun x => x * ufac (wu s2) (wu s1)) (wave s2)) (value s2) m (FScalar 0))
     as [[g vals]|]; simpl; auto. Qed.
+
+(* ------------------------------------------------------------------ the two-element fill value (below, above) *)
+Lemma denotes_cases w v f x y : incr w -> denotes w v f x y ->
+  (x < wmin w -> y = fill_below f) /\ (wmax w < x -> y = fill_above f) /\
+  (wmin w <= x -> x <= wmax w -> on_interpolant w v x y).
+Proof. intros Hi D. pose proof (incr_wmin_le_wmax w Hi) as Hw.
+  destruct D as [[A ->]|[[A ->]|(A & B & C)]]; repeat split; intros; auto; exfalso; qc2q; lra. Qed.
+
+Lemma spec_op_fill_pair o s1 s2 m lo hi r : wf s1 -> wf s2 -> spec_op o s1 s2 m (FPair lo hi) = Ok r ->
+  let s2' := conv s2 (wu s1) in
+  forall i, (i < length (rwave r))%nat -> let x := nth i (rwave r) 0 in exists y1 y2,
+    nth i (rvalue r) XUnmodelled = apply o y1 y2 /\
+    (x < wmin (wave s1) -> y1 = lo) /\ (wmax (wave s1) < x -> y1 = hi) /\
+    (wmin (wave s1) <= x -> x <= wmax (wave s1) -> on_interpolant (wave s1) (value s1) x y1) /\
+    (x < wmin (wave s2') -> y2 = lo) /\ (wmax (wave s2') < x -> y2 = hi) /\
+    (wmin (wave s2') <= x -> x <= wmax (wave s2') -> on_interpolant (wave s2') (value s2') x y2).
+Proof. intros W1 W2 E s2' i Hi x.
+  destruct (spec_op_pointwise _ _ _ _ _ _ W1 W2 E) as (_ & _ & _ & P).
+  destruct (P i Hi) as (y1 & y2 & D1 & D2 & A). exists y1, y2. split; auto.
+  destruct W1 as (I1 & _ & _). destruct (conv_wf s2 (wu s1) W2) as (I2 & _ & _).
+  destruct (denotes_cases _ _ _ _ _ I1 D1) as (a1 & b1 & c1).
+  destruct (denotes_cases _ _ _ _ _ I2 D2) as (a2 & b2 & c2). repeat split; auto. Qed.
